@@ -32,6 +32,7 @@ CHECKS = {
     "C05": ("robot", ROBOT_TECH + "; oracle = loop model (callback order, iteration instants on the P grid, /robot/mode)", ROBOT_TEXT, "4 (robot engine, C05)"),
     "C06": ("robot", ROBOT_TECH + "; oracle = lifecycle monitors on the callback log", ROBOT_TEXT, "4 (robot engine, C06)"),
     "C07": ("robot", ROBOT_TECH + " x exhaustive fault plans (every callback site x first/second/every call, all site pairs); differential oracle against the fault-free run", ROBOT_TEXT, "4 (robot engine, C07)"),
+    "C09": ("nt", "exhaustive product enumeration of tunable definitions/owners/subtables/writeDefault/pre-existing values, plus closed explicit-state exploration of python-side and NetworkTables-side read/write interleavings on two instances of one class against a dict model", "The definition family is enumerated completely; the read/write behaviour is a finite machine (value of each instance's topic) whose every state x operation is executed on the real tunables with independent NT publishers/subscribers.", "4 (nt engine)"),
     "C10": ("robot", ROBOT_TECH + " x all 16 assignment scripts x single fault plans; reset model replayed over the observed callback order", ROBOT_TEXT, "4 (robot engine, C10)"),
     "C11": ("robot", ROBOT_TECH + " x fault plans on getters; independent NetworkTables read after every iteration", ROBOT_TEXT, "4 (robot engine, C11)"),
     "C15": ("sa", "bounded exhaustive exploration (prefix-replay DFS) of generated StatefulAutonomous subclasses over all on_enable / on_iteration(tm) / dashboard-edit sequences and in-state actions, lock-step reference model", "Every operation sequence up to the stated depth, over several autonomous periods on the same instance, is executed on the real class and compared with a reference model whose periods are independent by construction.", "4 (sa engine)"),
